@@ -736,6 +736,154 @@ func concurrent(r *evid.Run, dir string, i int, cs int64) {
 	r.Case(fmt.Sprintf("conc/%d/%d/%d/%d", nkeys, nw, nr, cs), seen > 0)
 }
 
+// topLevel: the life cycle of top-level buckets inside and across transactions:
+// look-up, create (returns the existing one), delete, re-create, reads and writes
+// through freshly looked-up handles; reads must see the transaction's own writes
+// and deletions, a rolled-back transaction leaves nothing.
+func topLevel(r *evid.Run, dir string, i int, cs int64) {
+	rg := rand.New(rand.NewSource(cs))
+	path := filepath.Join(dir, fmt.Sprintf("top-%d-%d.db", os.Getpid(), cs))
+	db, err := walletdb.Create("bdb", path, true, 10*time.Second, false)
+	if err != nil {
+		r.Inconclusive("create: " + err.Error())
+		return
+	}
+	defer func() { db.Close(); os.Remove(path) }()
+	names := [][]byte{[]byte("alpha"), []byte("beta"), []byte("g")}
+	committed := map[string]map[string]string{}
+	clone := func(m map[string]map[string]string) map[string]map[string]string {
+		c := map[string]map[string]string{}
+		for k, v := range m {
+			c[k] = map[string]string{}
+			for a, b := range v {
+				c[k][a] = b
+			}
+		}
+		return c
+	}
+	var log []string
+	fail := func(key, what string) {
+		r.Violation("c11:toplevel:"+key, what, "toplevel", cs, map[string]any{"steps": log, "what": what})
+	}
+	verify := func(tx walletdb.ReadTx, m map[string]map[string]string, when string) string {
+		for _, n := range names {
+			b := tx.ReadBucket(n)
+			want, ok := m[string(n)]
+			if ok != (b != nil) {
+				return fmt.Sprintf("presence|%s: top-level bucket %q present=%v, model says %v", when, n, b != nil, ok)
+			}
+			if !ok {
+				continue
+			}
+			got := map[string]string{}
+			b.ForEach(func(k, v []byte) error { got[string(k)] = string(v); return nil })
+			if fmt.Sprint(got) != fmt.Sprint(want) {
+				return fmt.Sprintf("content|%s: top-level bucket %q holds %v, model %v", when, n, got, want)
+			}
+			for k, v := range want {
+				if string(b.Get([]byte(k))) != v {
+					return fmt.Sprintf("content|%s: Get(%q) in top-level bucket %q = %q, model %q", when, k, n, b.Get([]byte(k)), v)
+				}
+			}
+		}
+		return ""
+	}
+	for txn := 0; txn < 12; txn++ {
+		work := clone(committed)
+		commit := rg.Intn(3) != 0
+		var bad string
+		err := func() (err error) {
+			defer func() {
+				if rec := recover(); rec != nil {
+					bad = fmt.Sprintf("panic|a legal sequence of top-level bucket operations panicked: %v", rec)
+				}
+			}()
+			return walletdb.Update(db, func(tx walletdb.ReadWriteTx) error {
+				for step := 0; step < 4+rg.Intn(10) && bad == ""; step++ {
+					n := names[rg.Intn(len(names))]
+					switch rg.Intn(5) {
+					case 0: // create (or fetch the existing one)
+						b, err := tx.CreateTopLevelBucket(n)
+						log = append(log, fmt.Sprintf("create %q -> %v", n, err))
+						if err != nil || b == nil {
+							bad = fmt.Sprintf("create|CreateTopLevelBucket(%q) = %v", n, err)
+							break
+						}
+						if work[string(n)] == nil {
+							work[string(n)] = map[string]string{}
+						}
+					case 1: // delete
+						err := tx.DeleteTopLevelBucket(n)
+						log = append(log, fmt.Sprintf("delete %q -> %v", n, err))
+						_, ok := work[string(n)]
+						if ok != (err == nil) {
+							bad = fmt.Sprintf("delete|DeleteTopLevelBucket(%q) = %v, model has it: %v", n, err, ok)
+							break
+						}
+						delete(work, string(n))
+					default: // look it up and write / delete through the handle
+						b := tx.ReadWriteBucket(n)
+						m, ok := work[string(n)]
+						if ok != (b != nil) {
+							bad = fmt.Sprintf("presence|inside the transaction ReadWriteBucket(%q) present=%v, model says %v", n, b != nil, ok)
+							break
+						}
+						if !ok {
+							continue
+						}
+						k := fmt.Sprintf("k%d", rg.Intn(4))
+						if rg.Intn(4) == 0 {
+							if err := b.Delete([]byte(k)); err != nil {
+								bad = "write|" + err.Error()
+								break
+							}
+							delete(m, k)
+							log = append(log, fmt.Sprintf("del %q/%s", n, k))
+						} else {
+							v := fmt.Sprintf("v%d-%d", txn, step)
+							if err := b.Put([]byte(k), []byte(v)); err != nil {
+								bad = "write|" + err.Error()
+								break
+							}
+							m[k] = v
+							log = append(log, fmt.Sprintf("put %q/%s=%s", n, k, v))
+						}
+					}
+					if bad == "" {
+						bad = verify(tx, work, "inside the transaction")
+					}
+				}
+				if bad != "" || !commit {
+					return errBoom
+				}
+				return nil
+			})
+		}()
+		if bad != "" {
+			j := strings.Index(bad, "|")
+			fail(bad[:j], bad[j+1:])
+			return
+		}
+		if commit {
+			if err != nil {
+				fail("commit", err.Error())
+				return
+			}
+			committed = work
+		}
+		log = append(log, fmt.Sprintf("-- committed=%v", commit))
+		var d string
+		walletdb.View(db, func(tx walletdb.ReadTx) error { d = verify(tx, committed, "in a later transaction"); return nil })
+		if d != "" {
+			j := strings.Index(d, "|")
+			fail(d[:j], d[j+1:])
+			return
+		}
+		r.Hit("top-level-bucket-transactions", 1)
+	}
+	r.Case(fmt.Sprint("toplevel", cs), true)
+}
+
 // batches: goroutines call walletdb.Batch at the same time, so that bbolt
 // coalesces their functions into shared write transactions; some functions
 // fail after writing.  A failing function makes bbolt roll the shared
@@ -848,13 +996,15 @@ func batches(r *evid.Run, dir string, i int, cs int64) {
 
 func main() {
 	r := evid.New(P, "exploration")
-	r.Rule("random transaction programs (3..42 steps of put / get / delete / create-bucket / create-if-not-exists / descend / delete-bucket / cursor first-next-last-prev + ForEach / seek+next / next-sequence / set-sequence / cursor-delete / cross-namespace put) over arbitrary byte keys (0x00/0xff runs, shared prefixes, random, empty) and values (empty..300 bytes), executed in lock-step on the real walletdb/bdb database and a nested-map model, with outcome drawn from {commit, error, panic, read-only transaction attempting every mutation, manual rollback, manual commit}; every return value and documented error class is compared per step, the whole tree after every outcome and after close+reopen (1 in 10). Concurrent phase: writers commit n keys := unique v in one Update (1 in 7 fails half-way), readers must see n equal values per read transaction, only committed values, in commit order. (c) batches: 2..8 goroutines call walletdb.Batch simultaneously for several rounds, 1 in 2..5 functions failing after its writes (bbolt then rolls the shared transaction back and re-runs the siblings): every acknowledged Batch has all its keys with its values right after and after reopen, every failed one has none. Non-trivial = program with > 3 logged steps; distinct = distinct step logs.")
+	r.Rule("random transaction programs (3..42 steps of put / get / delete / create-bucket / create-if-not-exists / descend / delete-bucket / cursor first-next-last-prev + ForEach / seek+next / next-sequence / set-sequence / cursor-delete / cross-namespace put) over arbitrary byte keys (0x00/0xff runs, shared prefixes, random, empty) and values (empty..300 bytes), executed in lock-step on the real walletdb/bdb database and a nested-map model, with outcome drawn from {commit, error, panic, read-only transaction attempting every mutation, manual rollback, manual commit}; every return value and documented error class is compared per step, the whole tree after every outcome and after close+reopen (1 in 10). Concurrent phase: writers commit n keys := unique v in one Update (1 in 7 fails half-way), readers must see n equal values per read transaction, only committed values, in commit order. (d) top-level buckets: create / fetch / delete / re-create / read and write through freshly looked-up handles inside committed and rolled-back transactions, checked inside the transaction after every step and in a later one. (c) batches: 2..8 goroutines call walletdb.Batch simultaneously for several rounds, 1 in 2..5 functions failing after its writes (bbolt then rolls the shared transaction back and re-runs the siblings): every acknowledged Batch has all its keys with its values right after and after reopen, every failed one has none. Non-trivial = program with > 3 logged steps; distinct = distinct step logs.")
 	r.Trusted("go.etcd.io/bbolt as the engine below the adapter under test")
 	r.Assume("DeleteNestedBucket with an empty name: any error is accepted (bbolt answers differently depending on bucket contents)", "CreateBucketIfNotExists on an existing bucket inside a read-only transaction is not asserted", "empty values are compared by length, never nil-vs-empty")
 	dir, _ := os.MkdirTemp("", "c11")
 	defer os.RemoveAll(dir)
 	r.Parallel("programs", r.N(60, 2500), evid.Workers(), func(i int, cs int64) { sequential(r, dir, i, cs) })
 	r.Parallel("concurrent", r.N(12, 300), 4, func(i int, cs int64) { concurrent(r, dir, i, cs) })
+	r.Parallel("toplevel", r.N(20, 400), evid.Workers(), func(i int, cs int64) { topLevel(r, dir, i, cs) })
+	r.Require("top-level-bucket-transactions", 100)
 	r.Parallel("batches", r.N(12, 300), 4, func(i int, cs int64) { batches(r, dir, i, cs) })
 	r.Require("batch-functions-re-run-after-a-sibling-failed", 5)
 	r.Require("programs", 1000)
